@@ -1,5 +1,6 @@
 import BppModel.Proto
 import BppModel.Rand
+import BppModel.RandGen
 /-
 Driver for C18 (random draws).  Stateless: every operation carries its inputs; the
 implementation's answer carries, after its last `;`, the primitive draws the library made
@@ -105,6 +106,10 @@ def binom (n k : Nat) : Nat := if k > n then 0 else (List.range k).foldl (fun ac
 def hyperProbs (r0 r1 c0 k : Nat) : List Float :=
   (List.range (k + 1)).map (fun x => (binom r0 x * binom r1 (c0 - x)).toFloat / (binom (r0 + r1) c0).toFloat)
 
+/-- is "follows the weights" judgeable for these weights: one weight per element, non-negative,
+positive total (the assumptions of `weighted_pick_law`) -/
+def lawJudgeable (n : Nat) (w : List Float) : Bool := w.length == n && weightsOk w
+
 def verdictOf (checks : List (Bool × String)) : String :=
   match checks.find? (fun p => !p.1) with
   | some (_, name) => "FAIL:" ++ name
@@ -131,7 +136,9 @@ def step (_ : St) (op : List String) (impl : Option (List String)) : St × Strin
         | none, [[e], v'] =>
           match int? e, ints? v' with
           | some e, some v' => verdictOf [(!v.isEmpty, "empty_raises"), (v.contains e, "pick_member"),
-              (if repl then v' == v else isPermOf (e :: v') v, "pick_removes_one")]
+              (if repl then v' == v else isPermOf (e :: v') v, "pick_removes_one"),
+              -- the law: the element at the position the recorded integer draw designates
+              (match intDraws im.draws v.length with | some [pos] => lawPickAt v pos e | _ => true, "pick_law")]
           | _, _ => "FAIL:parse"
         | none, _ => "FAIL:parse"
       let out :=
@@ -152,7 +159,8 @@ def step (_ : St) (op : List String) (impl : Option (List String)) : St × Strin
         | some e, _ => verdictOf [(v.isEmpty && e == "exc:empty", "empty_raises")]
         | none, [[e]] =>
           match int? e with
-          | some e => verdictOf [(!v.isEmpty, "empty_raises"), (v.contains e, "pick_member")]
+          | some e => verdictOf [(!v.isEmpty, "empty_raises"), (v.contains e, "pick_member"),
+              (match intDraws im.draws v.length with | some [pos] => lawPickAt v pos e | _ => true, "pick_law")]
           | _ => "FAIL:parse"
         | none, _ => "FAIL:parse"
       let out :=
@@ -180,6 +188,8 @@ def step (_ : St) (op : List String) (impl : Option (List String)) : St × Strin
               let supp := (v.zip w).any (fun (x, wx) => x == e && wx > 0.0) || v.getLast? == some e
               verdictOf [(!v.isEmpty, "empty_raises"), (v.contains e, "pick_member"), (supp, "weighted_pick_support"),
                 (if repl then v' == v && w'.length == w.length else isPermOf (e :: v') v && w'.length + 1 == w.length, "pick_removes_one"),
+                -- the law: `e` is the element whose weight interval (normalised by Σw) contains the recorded draw
+                (!(lawJudgeable v.length w) || (match unitDraws im.draws with | some [u] => lawElem v w u e | _ => true), "weighted_pick_law"),
                 -- the remaining (element, weight) pairs are the original ones minus the picked pair
                 (repl || (let pairs := v.zip (w.map Float.toBits); let rest := v'.zip (w'.map Float.toBits)
                           pairs.any (fun q => q.1 == e && isPermOf (q :: rest) pairs)), "weighted_pick_keeps_weights_attached")]
@@ -208,7 +218,8 @@ def step (_ : St) (op : List String) (impl : Option (List String)) : St × Strin
             match int? e with
             | some e =>
               let supp := (v.zip w).any (fun (x, wx) => x == e && wx > 0.0) || v.getLast? == some e
-              verdictOf [(!v.isEmpty, "empty_raises"), (v.contains e, "pick_member"), (supp, "weighted_pick_support")]
+              verdictOf [(!v.isEmpty, "empty_raises"), (v.contains e, "pick_member"), (supp, "weighted_pick_support"),
+                (!(lawJudgeable v.length w) || (match unitDraws im.draws with | some [u] => lawElem v w u e | _ => true), "weighted_pick_law")]
             | _ => "FAIL:parse"
           | none, _ => "FAIL:parse"
         let out :=
@@ -235,7 +246,8 @@ def step (_ : St) (op : List String) (impl : Option (List String)) : St × Strin
         | none, [out] =>
           match ints? out with
           | some out =>
-            if repl then verdictOf [(!(v.isEmpty && k > 0), "empty_raises"), (out.length == k, "sample_size"), (allFrom out v, "sample_repl_subset")]
+            if repl then verdictOf [(!(v.isEmpty && k > 0), "empty_raises"), (out.length == k, "sample_size"), (allFrom out v, "sample_repl_subset"),
+              (match intDraws im.draws v.length with | some ds => ds.length != out.length || lawSampleUnif v ds out | none => true, "sample_repl_law")]
             else verdictOf [(!tooLong, "sample_too_long_raises"), (out.length == k, "sample_size"),
               (subMultiset out v, "sample_norepl_distinct"), (k != v.length || isPermOf out v, "sample_norepl_distinct")]
           | none => "FAIL:parse"
@@ -278,9 +290,13 @@ def step (_ : St) (op : List String) (impl : Option (List String)) : St × Strin
           | none, [out] =>
             match ints? out with
             | some out =>
-              if repl then verdictOf [(!(v.isEmpty && k > 0), "empty_raises"), (out.length == k, "sample_size"), (allFrom out v, "sample_repl_subset")]
+              -- the law, judged on the implementation's own recorded draws (one uniform draw per element)
+              let us := unitDraws im.draws
+              if repl then verdictOf [(!(v.isEmpty && k > 0), "empty_raises"), (out.length == k, "sample_size"), (allFrom out v, "sample_repl_subset"),
+                (!(lawJudgeable v.length w) || (match us with | some us => us.length != out.length || lawSampleRepl v w us out | none => true), "weighted_sample_law")]
               else verdictOf [(!tooLong, "sample_too_long_raises"), (out.length == k, "sample_size"),
-                (subMultiset out v, "sample_norepl_distinct"), (k != v.length || isPermOf out v, "sample_norepl_distinct")]
+                (subMultiset out v, "sample_norepl_distinct"), (k != v.length || isPermOf out v, "sample_norepl_distinct"),
+                (!(lawJudgeable v.length w && k ≤ nPositive w) || (match us with | some us => us.length != out.length || lawSampleNoRepl us out v w | none => true), "weighted_sample_norepl_law")]
             | none => "FAIL:parse"
           | none, _ => "FAIL:parse"
         let out :=
@@ -307,7 +323,8 @@ def step (_ : St) (op : List String) (impl : Option (List String)) : St × Strin
             -- support: the step of the cumulative function at p is positive (or u = 0, or p is the last index)
             let prev := if p == 0 then 0.0 else (w[p - 1]?).getD 0.0
             verdictOf [(!w.isEmpty, "empty_raises"), (p < w.length, "cumsum_pick_range"),
-              ((w[p]?).getD 0.0 > prev || u == 0.0 || p + 1 == w.length, "cumsum_pick_support")]
+              ((w[p]?).getD 0.0 > prev || u == 0.0 || p + 1 == w.length, "cumsum_pick_support"),
+              (cumSumPickOk w u p, "cumsum_pick_law")]
           | _, _ => "FAIL:parse"
         | none, _ => "FAIL:parse"
       let out :=
@@ -328,7 +345,11 @@ def step (_ : St) (op : List String) (impl : Option (List String)) : St × Strin
         | none, [st] =>
           match st.mapM nat? with
           | some st => verdictOf [(st.length == n, "multinomial_counts_sum"), (countsOk probs.length n st, "multinomial_counts_sum"),
-              (st.all (fun s => s < probs.length), "multinomial_state_range")]
+              (st.all (fun s => s < probs.length), "multinomial_state_range"),
+              -- the law: each state lies on the step of the running sums on which its own recorded draw falls
+              (match unitDraws im.draws with
+               | some ds => ds.length != st.length || (ds.zip st).all (fun (r, s) => multinomialLawOk probs r s)
+               | none => true, "multinomial_state_law")]
           | none => "FAIL:parse"
         | none, _ => "FAIL:parse"
       let out :=
@@ -350,7 +371,8 @@ def step (_ : St) (op : List String) (impl : Option (List String)) : St × Strin
           | some _, _ => "-"
           | none, [[x]] =>
             match Hex.float? x with
-            | some x => verdictOf [((vals.zip probs).any (fun (c, _) => c == x), "drand_member")]
+            | some x => verdictOf [((vals.zip probs).any (fun (c, _) => c == x), "drand_member"),
+                (match unitDraws im.draws with | some [r] => dRandLawOk (vals.zip probs) r x | _ => true, "drand_law")]
             | none => "FAIL:parse"
           | none, _ => "FAIL:parse"
         let out :=
@@ -374,7 +396,9 @@ def step (_ : St) (op : List String) (impl : Option (List String)) : St × Strin
         let rowOk := rows.all (fun r => r.all (fun x => 0.0 ≤ x) && Float.abs (r.foldl (· + ·) 0.0 - 1.0) < 1e-9)
         let verdict := verdictOf [(st.length == size, "hmm_sample_defined"), (st.all (· < n), "hmm_sample_defined"),
           (size == 0 || (eqU.map Float.toBits == eqT.map Float.toBits), "hmm_first_state_from_equilibrium"),
-          (Float.abs (eqT.foldl (· + ·) 0.0 - 1.0) < 1e-9 && rowOk, "hmm_rows_are_probabilities")]
+          (Float.abs (eqT.foldl (· + ·) 0.0 - 1.0) < 1e-9 && rowOk, "hmm_rows_are_probabilities"),
+          -- the law: each state on the step of its own recorded draw
+          (ds.length != st.length || hmmSampleLawOk eqU rows ds st, "hmm_sample_law")]
         let out := if ds.length != size || dt.length != size then "draw-mismatch" else
           match hmmSample eqU rows size ds with
           | .ok l => join [showNats l, showFloats pij, showFloats eqU, showFloats eqT, " ".intercalate dt]
@@ -423,37 +447,63 @@ def step (_ : St) (op : List String) (impl : Option (List String)) : St × Strin
       let invalid := nr < 2 || nc < 2 || m1.any (· == 0) || m2.any (· == 0)
       match im.raised, it with
       | some e, _ => ((), (if invalid then "exc:bpp" else "no-exception-expected"), verdictOf [(invalid && e == "exc:bpp", "ctest_rejects_only_bad_tables")])
-      | none, [s, p, d] =>
-        match Hex.float? s, Hex.float? p, Hex.float? d with
-        | some _, some pv, some _ =>
-          let tot := m1.sum
-          let stat : Float := (List.range nr).foldl (fun acc i => (List.range nc).foldl (fun acc j =>
-            let c := ((tab[i]?.bind (·[j]?)).getD 0).toFloat
-            let e := ((m1[i]?).getD 0 * (m2[j]?).getD 0).toFloat / tot.toFloat
-            acc + (c - e) * (c - e) / e) acc) 0.0
-          let df : Float := ((nc - 1) * (nr - 1)).toFloat
-          -- relational tie of the permutation p-value: some count in 0..nb gives exactly this value
-          let cnt := (pv * (nb + 1).toFloat).round.toUInt64.toNat - 1
-          let formOk := nb == 0 || (cnt ≤ nb && (pvalueOfCount cnt nb : Float) == pv)
-          -- all tables with margins (1,1)/(1,1) have the same statistic: every replicate counts (`pvalue_all_ge`)
-          let tiesOk := !(nb > 0 && m1 == [1, 1] && m2 == [1, 1]) || pv == 1.0
-          let verdict := verdictOf [(!invalid, "ctest_rejects_only_bad_tables"), (0.0 ≤ pv && pv ≤ 1.0, "pvalue_range"), (formOk, "pvalue_formula"),
-            (nb == 0 || pv > 0.0, "pvalue_range"), (tiesOk, "pvalue_all_ge")]
-          ((), Hex.ofFloat stat ++ " " ++ p ++ " " ++ Hex.ofFloat df, verdict)
-        | _, _, _ => ((), "parse", "FAIL:parse")
-      | none, _ => ((), "parse", "FAIL:parse")
+      | none, _ =>
+        match splitTok ";" it with
+        | [[s, p, d], im1, im2, simToks, [same]] =>
+          match Hex.float? s, Hex.float? p, Hex.float? d, im1.mapM nat?, im2.mapM nat?, floats? simToks with
+          | some sv, some pv, some _, some im1, some im2, some sims =>
+            let tot := m1.sum
+            let stat : Float := (List.range nr).foldl (fun acc i => (List.range nc).foldl (fun acc j =>
+              let c := ((tab[i]?.bind (·[j]?)).getD 0).toFloat
+              let e := ((m1[i]?).getD 0 * (m2[j]?).getD 0).toFloat / tot.toFloat
+              acc + (c - e) * (c - e) / e) acc) 0.0
+            let df : Float := ((nc - 1) * (nr - 1)).toFloat
+            -- the transcribed Monte-Carlo loop on the statistics of the tables `rcont2` draws from the
+            -- generator state the constructor started in, against the implementation's own statistic
+            let pModel : Option Float := if nb == 0 then none else
+              match mcPValue sv nb sims with | .ok x => some x | .error _ => none
+            -- relational form: some count in 0..nb gives exactly this value
+            let cnt := (pv * (nb + 1).toFloat).round.toUInt64.toNat - 1
+            let formOk := nb == 0 || (cnt ≤ nb && (pvalueOfCount cnt nb : Float) == pv)
+            -- all tables with margins (1,1)/(1,1) have the same statistic: every replicate counts (`pvalue_all_ge`)
+            let tiesOk := !(nb > 0 && m1 == [1, 1] && m2 == [1, 1]) || pv == 1.0
+            let verdict := verdictOf [(!invalid, "ctest_rejects_only_bad_tables"), (im1 == m1 && im2 == m2, "ctest_margins"),
+              (0.0 ≤ pv && pv ≤ 1.0, "pvalue_range"), (nb == 0 || pv > 0.0, "pvalue_range"),
+              -- the constructor consumed the generator exactly as `nbPermutations` tables do
+              (same == "1" && sims.length == nb, "pvalue_replicates"),
+              (formOk, "pvalue_count_le_nb"),
+              (match pModel with | some x => x.toBits == pv.toBits | none => nb == 0, "pvalue_formula"),
+              (tiesOk, "pvalue_all_ge")]
+            let pOut := match pModel with | some x => Hex.ofFloat x | none => p
+            ((), join [Hex.ofFloat stat ++ " " ++ pOut ++ " " ++ Hex.ofFloat df, showNats m1, showNats m2, " ".intercalate simToks, "1"], verdict)
+          | _, _, _, _, _, _ => ((), "parse", "FAIL:parse")
+        | _ => ((), "parse", "FAIL:parse")
     | _, _, _, _ => bad
   | "ks" :: fam :: n :: _ =>
+    -- answer: D n' mean [massdev]; n' = n, or (beta law) the number of sample points below the censoring
+    -- point, D then being the distance to the cdf conditioned on that region and massdev |n'/n - F(cens)|
     match nat? n, it with
-    | some n, d :: _ =>
-      match Hex.float? d with
-      | some d => ((), "stat", if d ≤ ksBound n then "ok" else "FAIL:ks_" ++ fam)
-      | none => ((), "stat", "FAIL:ks_" ++ fam)    -- NaN in the sample or in the cdf
+    | some n, [d, n', _] =>
+      match Hex.float? d, nat? n' with
+      | some d, some n' => ((), "stat", if n' == n && d ≤ ksBound n then "ok" else "FAIL:ks_" ++ fam)
+      | _, _ => ((), "stat", "FAIL:ks_" ++ fam)    -- NaN in the sample or in the cdf
+    | some n, [d, n', _, md] =>
+      match Hex.float? d, nat? n', Hex.float? md with
+      | some d, some n', some md =>
+        -- the slack 0.05 covers the mass (at most 3.5 % for beta >= 0.1) that the beta law puts within one ulp of 1
+        ((), "stat", if 100 ≤ n' && n' ≤ n && d ≤ ksBound n' && md ≤ ksBound n + 0.05 then "ok" else "FAIL:ks_" ++ fam)
+      | _, _, _ => ((), "stat", "FAIL:ks_" ++ fam)
+    | some _, _ => ((), "stat", "FAIL:ks_" ++ fam)
     | _, _ => bad
   | "chi2" :: kind :: _ :: ws =>
     match floats? ws, it.mapM nat? with
     | some w, some counts =>
-      let probs := if kind == "pick1c" || kind == "shuffle" || kind == "uint" then w.map (fun _ => 1.0) else w
+      let probs :=
+        if kind == "pick1c" || kind == "shuffle" || kind == "uint" then w.map (fun _ => 1.0)
+        -- the pair (first, second element) of a sample with replacement of size 2: independent picks
+        else if kind == "pairs" then (w.flatMap (fun _ => w)).map (fun _ => 1.0)
+        else if kind == "pairsw" then w.flatMap (fun a => w.map (fun b => a * b))
+        else w
       ((), "stat", if chi2Ok counts probs then "ok" else "FAIL:chi2_" ++ kind)
     | _, _ => ((), "stat", "FAIL:chi2_" ++ kind)
   | "chi2d" :: fam :: _ =>
@@ -468,7 +518,29 @@ def step (_ : St) (op : List String) (impl : Option (List String)) : St × Strin
     | some r0, some r1, some c0, some counts =>
       ((), "stat", if chi2Ok counts (hyperProbs r0 r1 c0 (min r0 c0)) then "ok" else "FAIL:chi2_rcont2")
     | _, _, _, _ => ((), "stat", "FAIL:chi2_rcont2")
-  | ["repro", _] => ((), "1 1 1", if it == ["1", "1", "1"] then "ok" else "FAIL:reproducible")
+  | ["chi2rc3", _, _, a0, _, b0, b1, b2] =>
+    -- joint law of two cells of a 2x3 / 3x2 table: multivariate hypergeometric
+    match nat? a0, nat? b0, nat? b1, nat? b2, it.mapM nat? with
+    | some a0, some b0, some b1, some b2, some counts =>
+      let tot := (binom (b0 + b1 + b2) a0).toFloat
+      let probs := (List.range (b0 + 1)).flatMap (fun x0 => (List.range (b1 + 1)).map (fun x1 =>
+        if x0 + x1 > a0 then 0.0 else (binom b0 x0 * binom b1 x1 * binom b2 (a0 - x0 - x1)).toFloat / tot))
+      ((), "stat", if chi2Ok counts probs then "ok" else "FAIL:chi2_rcont2_joint")
+    | _, _, _, _, _ => ((), "stat", "FAIL:chi2_rcont2_joint")
+  | ["repro", _] =>
+    -- answer: <two runs after setSeed(seed) agree> <the first uniform is the one of std::mt19937(seed): informative only,
+    -- the property does not name the generator> <setSeed(seed + 1) gives another stream>
+    match it with
+    | [same, first, differs] => ((), "1 " ++ first ++ " 1", if same == "1" && differs == "1" then "ok" else "FAIL:reproducible")
+    | _ => ((), "parse", "FAIL:reproducible")
+  | ["repro1", routine, _, _, _] =>
+    -- two histories that differ before `setSeed(seed)`: the observations after it and the final generator
+    -- state must agree (`reproducible`); the clause names the routine that keeps state of its own
+    match splitTok ";" it with
+    | [a, b, [same]] =>
+      ((), join [" ".intercalate a, " ".intercalate a, "1"],
+        if RandGen.reproObserved a b (same == "1") then "ok" else "FAIL:reproducible_" ++ routine)
+    | _ => ((), "parse", "FAIL:reproducible_" ++ routine)
   | _ => bad
 
 def machine : Machine St := { init := fun _ => (), step := step }
